@@ -962,6 +962,9 @@ def compute_spec(gen, sort_post):
                        ("at most maxit restarts", "g_restarts <= (maxit > 0 ? maxit : 0)"),
                        ("work bound (additive form): every factorization call is paid for by the budget, one call per restart plus the first",
                         "g_ops - old_ops <= g_budget && g_budget <= 2 * NMAX * (g_restarts + 1) && g_calls == g_restarts + 1"),
+                       ("work bound (the statement's form): operator applications in this compute() <= g_term, and g_term is 2*ncv added once per factorization call = 2*ncv*(restarts+1) <= 2*ncv*(maxit+1) "
+                        "(the product is carried as a ghost sum because 64-bit multiplication facts do not discharge; restarts <= maxit is the clause above)",
+                        "g_ops - old_ops <= g_term && g_term <= 2 * NMAX * (g_restarts + 1)"),
                        ("convergence flags were computed from the Ritz data that is returned (no stale flags)", "!(ret > 0) || S->st_conv == S->st_ritz"),
                        ("the returned Ritz data comes from an eigen-decomposition made during this compute() (nothing left over from an earlier call is returned)",
                         "S->st_ritz > old_clock_c && S->st_ritz <= g_clock"),
@@ -971,7 +974,7 @@ def compute_spec(gen, sort_post):
                            ("exception type is a documented one and the operator's exception propagates unchanged; counter lags by at most the interrupted application",
                             "(verif_exc == EXC_user ? g_ops == S->m_nmatop + 1 : (S->m_nmatop == g_ops && (verif_exc == EXC_invalid_argument || verif_exc == EXC_runtime_error)))"),
                            ("object keeps consistent shapes (init() can be called again)", SHAPES)],
-                 frame=["S->m_nmatop", "S->m_niter", "S->m_info", "g_ops", "g_clock", "g_accepted", "g_restarts", "g_budget", "g_calls", "S->st_ritz", "S->st_conv", "S->cnt_conv",
+                 frame=["S->m_nmatop", "S->m_niter", "S->m_info", "g_ops", "g_clock", "g_accepted", "g_restarts", "g_budget", "g_term", "g_calls", "S->st_ritz", "S->st_conv", "S->cnt_conv",
                         "g_ia", "g_ib", "g_va", "g_vb", "g_shift_lo", "g_shift_n", "g_shifts_applied",
                         "S->m_fac.m_k", "S->m_fac.g_valid_k", "S->m_fac.m_beta", "S->m_fac.m_fac_V.cell", "S->m_fac.m_fac_H.cell", "S->m_fac.m_fac_H.rows",
                         "S->m_fac.m_fac_H.cols", "S->m_fac.st_fac", "S->g_backtransformed"],
@@ -982,14 +985,15 @@ def compute_spec(gen, sort_post):
                  olds=[("Index", "old_ops", "g_ops"), ("Index", "old_clock_c", "g_clock")], real=hdr + ":compute")
 
 
-COMPUTE_GHOST = "Index g_calls;   /* ghost: factorization calls paid from the budget in the current compute() */\n"
+COMPUTE_GHOST = ("Index g_calls;   /* ghost: factorization calls paid from the budget in the current compute() */\n"
+                 "Index g_term;    /* ghost: 2*ncv added once per factorization call, i.e. the product 2*ncv*g_calls by repeated addition */\n")
 
 
 def _compute_factorize(m):
     a = [x.strip() for x in X.split_top(m.group(1))]
     if len(a) != 2:
         raise X.ExtractionBreak("compute: factorize_from call has %d leading arguments" % len(a))
-    return ("g_restarts = 0; g_calls = 1; const Index verif_from = (%s); g_budget = 2 * ((%s) - verif_from); S->g_backtransformed = 0; "
+    return ("g_restarts = 0; g_calls = 1; g_term = 2 * S->m_ncv; const Index verif_from = (%s); g_budget = 2 * ((%s) - verif_from); S->g_backtransformed = 0; "
             "factorize_from(&S->m_fac, verif_from, %s, &S->m_nmatop);" % (a[0], a[1], a[1]))
 
 
@@ -1011,17 +1015,17 @@ def f_compute(gen, report, sort_post):
         ("retrieve", r"(?<![\w>])retrieve_ritzpair\(selection\);", "retrieve_ritzpair(S, selection);", {"max": 1}),
         ("num_converged", r"(?<![\w>])num_converged\(tol\)", "num_converged(S, tol)", {"min": 1, "max": 2}),
         ("nev_adjusted", r"(?<![\w>])nev_adjusted\((\w+)\)", r"nev_adjusted(S, \1)", {"max": 1}),
-        ("restart", r"(?<![\w>])restart\((\w+), selection\);", r"g_budget += 2 * (S->m_ncv - (\1)); g_calls++; restart(S, \1, selection); g_restarts++;", {"max": 1}),
+        ("restart", r"(?<![\w>])restart\((\w+), selection\);", r"g_budget += 2 * (S->m_ncv - (\1)); g_term += 2 * S->m_ncv; g_calls++; restart(S, \1, selection); g_restarts++;", {"max": 1}),
         ("sort", r"(?<![\w>])sort_ritzpair\(sorting\);", "sort_ritzpair(S, sorting);", {"max": 1}),
     ]
-    inv = ("__CPROVER_assigns(i, nconv, nev_adj, verif_exc, S->m_nmatop, g_ops, g_clock, g_accepted, g_restarts, g_budget, g_calls, S->st_ritz, S->st_conv, S->cnt_conv, "
+    inv = ("__CPROVER_assigns(i, nconv, nev_adj, verif_exc, S->m_nmatop, g_ops, g_clock, g_accepted, g_restarts, g_budget, g_term, g_calls, S->st_ritz, S->st_conv, S->cnt_conv, "
            "g_ia, g_ib, g_va, g_vb, g_shift_lo, g_shift_n, g_shifts_applied, S->m_fac.m_k, S->m_fac.g_valid_k, S->m_fac.m_beta, S->m_fac.m_fac_V.cell, "
            "S->m_fac.m_fac_H.cell, S->m_fac.m_fac_H.rows, S->m_fac.m_fac_H.cols, S->m_fac.st_fac, "
            "__CPROVER_object_whole(S->m_fac.m_fac_f), __CPROVER_object_whole(S->m_ritz_conv), __CPROVER_object_whole(S->tag_conv), "
            "__CPROVER_object_whole(S->m_ritz_val), __CPROVER_object_whole(S->m_ritz_est), __CPROVER_object_whole(S->tag_val), __CPROVER_object_whole(S->tag_est), "
            "__CPROVER_object_whole(S->m_ritz_vec.coltag), __CPROVER_object_whole(S->m_fac.m_fac_V.colbuf)%s) "
            "__CPROVER_loop_invariant(0 <= i && (i <= maxit || maxit < 0) && verif_exc == 0 && g_restarts == i && g_calls == i + 1) "
-           "__CPROVER_loop_invariant(S->m_nmatop == g_ops && old_ops_l <= g_ops && g_ops - old_ops_l <= g_budget && 0 <= g_budget && g_budget <= 2 * NMAX * (i + 1)) "
+           "__CPROVER_loop_invariant(S->m_nmatop == g_ops && old_ops_l <= g_ops && g_ops - old_ops_l <= g_budget && 0 <= g_budget && g_budget <= g_term && g_term <= 2 * NMAX * (i + 1)) "
            "__CPROVER_loop_invariant(0 <= g_clock && g_clock <= old_clock_l + 2 + 3 * i && S->st_ritz > old_clock_l && S->st_ritz <= g_clock) "
            "__CPROVER_loop_invariant(S->m_fac.m_k == S->m_ncv && S->m_fac.g_valid_k == S->m_ncv && S->m_fac.m_beta >= (Scalar)0 && %s) "
            "__CPROVER_loop_invariant(0 <= nconv && nconv <= S->m_nev && 0 <= S->cnt_conv && S->cnt_conv <= S->m_nev && (i == 0 || nconv == S->cnt_conv)) "
